@@ -1,4 +1,6 @@
+pub mod c01;
 pub mod c04;
+pub mod lincheck;
 pub mod solvers;
 pub mod c05;
 
@@ -6,6 +8,7 @@ use crate::runner::{run, RunArgs};
 
 pub fn dispatch(id: &str, args: &RunArgs) -> i32 {
     match id {
+        "C01" => run(&c01::C01, args),
         "C04" => run(&c04::C04, args),
         "C05" => run(&c05::C05, args),
         _ => {
